@@ -82,6 +82,9 @@ def run_case(c: Case) -> Outcome:
         o.ref = mkref()
         if "DADL-carry-in" in o.ref.undef:
             o.ref_alt = mkref(0)
+        ptrs = {IMEM_BASE + 0xEC, IMEM_BASE + 0xED, IMEM_BASE + 0xEE}
+        if (set(o.ref.writes) & ptrs) & set(o.ref.addr_reads):
+            raise isa.Skip("the instruction overwrites BP/PX/PY while addressing through it (order of evaluation is not documented)")
     except isa.Skip as exc:
         o.skip = f"undocumented: {exc}"
         return o
